@@ -4,6 +4,7 @@ import GodiProofs.Graph.Remove
 import GodiProofs.Graph.AddRollback
 import GodiProofs.Graph.Transitive
 import GodiProofs.Graph.Depths
+import GodiProofs.Graph.DepthsComplete
 /-!
 # C19 — The dependency graph always agrees with a plain digraph model
 
@@ -236,6 +237,22 @@ theorem depths_partial (g : Graph) (b : Base g) (s : Synced g) (norder : List Ke
     (calculateDepthsWith g norder).depth k = -1 ∨
     ∃ m : Nat, (calculateDepthsWith g norder).depth k = (m : Int) ∧ Chain (abs g).edge k m :=
   depths_witnessed g b s norder hn k
+
+/-- `CalculateDepths` on an ACYCLIC graph, full statement (`Graph/DepthsComplete.lean`): for every iteration order of
+the node map, with the fuel the model runs on, the depth of a node bounds the length of every dependency chain from it
+down to a node without dependencies and is the length of one of them — it is the length of the longest chain, which is
+what the plain digraph says. (Chains are shorter than the number of nodes, so the guard `depth < len(nodes)` never stops
+a relaxation; the potential Σ (n − 1 − depth) + |queue| drops with every iteration, so `n² + n + 1` iterations suffice;
+a node outside the queue is relaxed.) -/
+theorem depths_are_longest_chains (g : Graph) (b : Base g) (s : Synced g) (hac : ¬ HasCycle (abs g))
+    (norder : List Key) (hp : norder.Perm g.nodes) (k : Key) (hk : k ∈ g.nodes) :
+    (∀ m', Chain (abs g).edge k m' → (m' : Int) ≤ (calculateDepthsWith g norder).depth k) ∧
+    ((calculateDepthsWith g norder).depth k = -1 ∨
+      ∃ m : Nat, (calculateDepthsWith g norder).depth k = (m : Int) ∧ Chain (abs g).edge k m) := by
+  have hac' : Acyclic g := by
+    intro x hr
+    exact hac ⟨x, Godi.Props.C05.mem_nodes_of_reach b hr, hr⟩
+  exact depths_exact g b s hac' norder hp k hk
 
 /-- non-vacuity: 3 → 2 → 1 and 3 → 1: depths 1:0, 2:1, 3:2 (the longer chain) -/
 example : let g := (detectCycles (addProviderDeferred (addProviderDeferred (addProviderDeferred {} 3 30 [2, 1]) 2 20 [1]) 1 10 [])).1
